@@ -496,6 +496,17 @@ class OutputScript(Script):
         UPDATE_CLAIM_OPCODES + PAY_SCRIPT_HASH.opcodes
     ))
 
+    # scripts of third parties matching none of the templates: not a payment, claim, support or data we understand
+    UNKNOWN = Template('unknown', None)
+
+    def parse(self, template_hint=None):
+        try:
+            super().parse(template_hint)
+        except ValueError:
+            # any transaction in our history may carry such outputs; they must not abort processing it
+            self._template = self.UNKNOWN
+            self._values = {}
+
     templates = [
         PAY_PUBKEY_FULL,
         PAY_PUBKEY_HASH,
